@@ -44,6 +44,7 @@ def values_at(axis, level, n):
             out.append([[a, b, False, [['1.5', 1]]]])
             out.append([[a, b, True, None]])
             out.append([[a, b, True, [['Oxidation', 2], ['1.5', 1]]]])
+            out.append([[a, b, False, [['Oxidation', 1], ['Oxidation', 2]]]])     # one value, two multipliers
         if n >= 3:
             out.append([[0, 1, False, [['1.5', 1]]], [1, n, True, [['Oxidation', 1]]]])
         return out
@@ -331,6 +332,17 @@ def check(case, ctx):
             elif back2 != pmodel.render(P, plus) and not (plus and P.get('static')):   # a rule is kept as written
                 # the original string in the spelling with explicit plus signs (independent renderer)
                 ctx.fail('add_mods-reproduces-original-string', pmodel.render(P, plus), back2, text=s, include_plus=plus)
+        # the caller's dictionary is used twice (and inspected in between): same result, dictionary as before
+        md_shared = _copy.deepcopy(md)
+        r1 = lib.call(p.add_mods, stripped, md_shared)
+        same_between = lib.dump(md_shared) == lib.dump(md)
+        r2 = lib.call(p.add_mods, stripped, md_shared, False, True)
+        r3 = lib.call(p.add_mods, stripped, md_shared)
+        ctx.evals += 3
+        if not same_between or lib.dump(md_shared) != lib.dump(md):
+            ctx.fail('add_mods-changes-the-dictionary', lib.dump(md), lib.dump(md_shared), text=s)
+        elif r1[0] != r3[0] or r1[1] != r3[1] or (st3 == 'ok' and r1[0] == 'ok' and r1[1] != back):
+            ctx.fail('add_mods-second-use-of-dictionary', r1[1], r3[1], text=s)
         st5, pm = lib.call(p.pop_mods, s)
         ctx.evals += 1
         if st5 != 'ok' or pm[0] != P['seq'] or lib.dump(pm[1]) != lib.dump(md):
@@ -423,6 +435,7 @@ def check(case, ctx):
         changed = True
     if R.get('iv') and len(R['iv']) > 0:
         R['iv'] = [[x[0], x[1], x[2], x[3][::-1] if x[3] else x[3]] for x in R['iv']]
+        changed = changed or any(x[3] and len(x[3]) > 1 for x in R['iv'])
     if changed:
         sr = pmodel.render(R)
         st, ra = lib.call(p.parse, sr)
